@@ -41,6 +41,10 @@ struct Wire {
     /// deviation is answered properly, so that its mistake shows as a step that succeeds
     fallback: Vec<u8>,
     fallbacks_used: usize,
+    /// reads answered with "end of stream" so far; a reader that keeps coming back is told off (and reported) instead of being
+    /// allowed to spin for ever
+    zero_reads: usize,
+    spun: bool,
 }
 struct Sock(Arc<Mutex<Wire>>);
 impl AsyncRead for Sock {
@@ -55,6 +59,11 @@ impl AsyncRead for Sock {
             w.consumed += n;
             Poll::Ready(Ok(()))
         } else if w.eof {
+            w.zero_reads += 1;
+            if w.zero_reads > 64 {
+                w.spun = true;
+                return Poll::Ready(Err(std::io::Error::other("harness: the reader keeps reading after the end of the stream")));
+            }
             Poll::Ready(Ok(()))
         } else {
             w.waker = Some(cx.waker().clone());
@@ -150,7 +159,7 @@ fn segment_bytes(seg: &Value, serial: u32) -> (Vec<u8>, Vec<usize>) {
     (out, ends)
 }
 
-struct Outcome { verdicts: Vec<(String, usize)>, state: bool, consumed: usize, limit: Option<usize>, hung: bool, queries: Vec<(u8, u8)> }
+struct Outcome { verdicts: Vec<(String, usize)>, state: bool, consumed: usize, limit: Option<usize>, hung: bool, spun: bool, queries: Vec<(u8, u8)> }
 
 fn run_case(c: &Value) -> Outcome {
     let hist: Vec<Value> = c["hist"].as_array().unwrap().clone();
@@ -253,7 +262,7 @@ fn run_case(c: &Value) -> Outcome {
         if len < 8 { break; }
         i += len;
     }
-    Outcome { verdicts, state: final_state, consumed: w.consumed, limit, hung, queries }
+    Outcome { verdicts, state: final_state, consumed: w.consumed, limit, hung, spun: w.spun, queries }
 }
 
 pub fn replay(args: &[String]) {
@@ -266,7 +275,9 @@ pub fn replay(args: &[String]) {
             Ok(o) => {
                 let want: Vec<(String, usize)> = c["verdicts"].as_array().unwrap().iter().map(|v| (v[0].as_str().unwrap().to_string(), v[1].as_u64().unwrap() as usize)).collect();
                 let kinds = |v: &[(String, usize)]| v.iter().map(|x| x.0.clone()).collect::<Vec<_>>();
-                if o.hung {
+                if o.spun {
+                    s.violation("client:spins", format!("the client keeps reading after the stream has ended (more than 64 reads answered with end of stream): {:?}", o.verdicts), c.clone());
+                } else if o.hung {
                     s.violation("client:waits", format!("a step does not end although the stream has ended or the reply is complete: {:?}, specification {:?}", o.verdicts, want), c.clone());
                 } else if kinds(&o.verdicts) != kinds(&want) {
                     let accepted = o.verdicts.iter().filter(|v| v.0 == "ok").count() > want.iter().filter(|v| v.0 == "ok").count();
@@ -442,6 +453,9 @@ pub fn drive(args: &[String]) {
             });
             evs
         });
+        if wire.lock().unwrap().spun {
+            s.violation("client:spins", "the client keeps reading after the stream has ended".into(), json!({"seed": seed, "conversation": conv}));
+        }
         match res {
             Ok(evs) => { for e in evs { t.ev(e); } s.eval(Some(&format!("{conv}"))); }
             Err(m) => s.violation("trace:panic", format!("the client panics: {m}"), json!({"seed": seed, "conversation": conv})),
